@@ -186,7 +186,7 @@ impl<P: Problem> Selection<P> for RandomWithoutRepetition {
     ) -> ExecResult<Vec<&'a Individual<P>>> {
         let num_selected = self.num_selected as usize;
         ensure!(
-            population.len() > num_selected,
+            population.len() >= num_selected,
             "the population does not contain enough individuals to sample without replacement"
         );
         let selection = population.choose_multiple(rng, num_selected).collect();
